@@ -344,12 +344,19 @@ pub fn check_proof(
                         if let Some(p) = prop {
                             vars.push(p.var);
                         }
+                        // a literal defined by a predicate brings the predicate's variable (and the definition) along
+                        let defined: Vec<usize> = vars.iter().copied().filter(|v| matches!(m.vars[*v], VarDecl::PredLit { .. })).collect();
+                        for v in &defined {
+                            if let VarDecl::PredLit { pred } = &m.vars[*v] {
+                                vars.push(pred.var);
+                            }
+                        }
                         vars.sort_unstable();
                         vars.dedup();
                         let mut base: Vec<i32> = m.vars.iter().map(|d| d.lb()).collect();
                         let mut witness = None;
                         enumerate(m, &vars, 0, &mut base, &mut |a| {
-                            if prem.iter().all(|p| p.holds(a[p.var] as i64)) && sem::holds_posted(c, a) && !prop.map(|p| p.holds(a[p.var] as i64)).unwrap_or(false) {
+                            if defined.iter().all(|v| sem::link_holds(m, *v, a)) && prem.iter().all(|p| p.holds(a[p.var] as i64)) && sem::holds_posted(c, a) && !prop.map(|p| p.holds(a[p.var] as i64)).unwrap_or(false) {
                                 witness = Some(vars.iter().map(|v| a[*v]).collect::<Vec<_>>());
                                 return false;
                             }
@@ -448,6 +455,12 @@ pub fn check_proof(
             }
             // ... over the objective variable, and tight: it excludes every value of the objective
             // variable which would be strictly better than the optimum
+            if matches!(m.vars[obj.var], VarDecl::PredLit { .. }) {
+                // the objective is a literal which the proof replaces by its defining predicate (or by
+                // the trivially true atom): the bound is then stated over another variable and only its
+                // soundness (above) can be judged
+                return Ok(report);
+            }
             if bound.var != obj.var {
                 return Err(Failure::new("proof:bound-on-other-variable", format!("the concluded bound {:?} is not over the objective variable {}", bound, obj.var)));
             }
@@ -485,6 +498,13 @@ pub fn model_clauses(m: &Model) -> Vec<Vec<Atom>> {
     let lit = |l: &Lit| Atom { var: l.var, op: if l.neg { 1 } else { 0 }, val: if l.neg { 0 } else { 1 } };
     let pred = |p: &Pred| Atom { var: p.var, op: match p.kind { PKind::Ge => 0, PKind::Le => 1, PKind::Eq => 2, PKind::Ne => 3 }, val: p.val as i64 };
     let mut out = vec![];
+    // the definition of a literal for a predicate: two clauses
+    for (i, d) in m.vars.iter().enumerate() {
+        if let VarDecl::PredLit { pred: p } = d {
+            out.push(vec![Atom { var: i, op: 1, val: 0 }, pred(p)]);
+            out.push(vec![Atom { var: i, op: 0, val: 1 }, pred(&p.negated())]);
+        }
+    }
     for p in &m.cons {
         match (&p.cons, p.mode) {
             (Cons::PredClause { preds }, Mode::Post) => out.push(preds.iter().map(pred).collect()),
